@@ -124,7 +124,11 @@ func cmdCheck(args []string) int {
 			continue
 		}
 		cfg := *h
-		res := Explore(P, &cfg, *workers, "cvc5-int", 60000)
+		primary := "cvc5-int"
+		if h.Solver != "" {
+			primary = h.Solver
+		}
+		res := Explore(P, &cfg, *workers, primary, 60000)
 		results = append(results, res)
 		fmt.Printf("[%s] %s.%s paths=%d infeasible=%d obligations=%d/%d queries=%d solver=%.1fs wall=%.1fs\n", id, h.Pkg, h.Entry, res.Paths, res.Infeasible, res.Discharged, res.Obligations, res.Queries, res.SolverTime.Seconds(), res.Wall.Seconds())
 		for _, s := range res.Inconclusive {
@@ -132,7 +136,10 @@ func cmdCheck(args []string) int {
 		}
 		// cross-check with the other solvers (thorough tier)
 		if *tier == "thorough" && os.Getenv("VERIF_NOCROSS") == "" && len(res.Inconclusive) == 0 {
-			for _, sk := range []string{"z3-new", "z3"} {
+			for _, sk := range []string{"z3-new", "z3", "cvc5-int"} {
+				if sk == primary || (sk == "cvc5-int" && primary != "z3-new") {
+					continue
+				}
 				if h.CrossSkip != "" && strings.Contains(h.CrossSkip, sk) {
 					continue
 				}
@@ -267,7 +274,7 @@ func writeReplay(id string, h *HarnessCfg, v *Violation, n int) string {
 	f := filepath.Join(dir, fmt.Sprintf("%s-%d.json", h.Entry, n))
 	doc := map[string]interface{}{
 		"property": id, "pkg": h.Pkg, "harness": h.Entry, "kind": v.Kind, "msg": v.Msg, "where": v.Where,
-		"inputs": v.Inputs, "decisions": v.Decisions, "trace": v.Trace, "threaded": v.Threaded,
+		"inputs": v.Inputs, "decisions": v.Decisions, "trace": v.Trace, "threaded": v.Threaded, "params": h.Params,
 	}
 	b, _ := json.MarshalIndent(doc, "", " ")
 	os.WriteFile(f, b, 0o644)
@@ -386,7 +393,7 @@ func replayWitnesses(id string, h *HarnessCfg, res *RunResult) int {
 	var files []string
 	for i, w := range res.Witnesses {
 		f := filepath.Join(tmp, fmt.Sprintf("w%d.json", i))
-		b, _ := json.Marshal(map[string]interface{}{"harness": h.Entry, "inputs": w})
+		b, _ := json.Marshal(map[string]interface{}{"harness": h.Entry, "inputs": w, "params": h.Params})
 		os.WriteFile(f, b, 0o644)
 		files = append(files, f)
 	}
